@@ -104,6 +104,18 @@ def install(sched):
             if lock is not None and lock.locked():
                 lock.release()  # what the interpreter does when the thread's state is destroyed
 
+    # Thread objects are kept in sets (ThreadPoolExecutor._threads, threading._dangling): hashing them by address
+    # would make iteration order - e.g. the order in which shutdown() joins workers - differ from process to process
+    seq = [0]
+    orig_init = T.__init__
+
+    def __init__(self, *a, **k):
+        orig_init(self, *a, **k)
+        seq[0] += 1
+        self._sim_seq = seq[0]
+
+    T.__init__ = __init__
+    T.__hash__ = lambda self: getattr(self, "_sim_seq", 0) * 7919
     T.start = start
     T._set_tstate_lock = _set_tstate_lock
     T._bootstrap_inner = _bootstrap_inner
